@@ -5,7 +5,7 @@
 From Coq Require Import ZArith NArith String List.
 Import ListNotations.
 From TP Require Import Base.PyVal Base.PyEq Fields.FieldAst Fields.SetChain Struct.Instance
-     Ser.Trusted Ser.TrustedProofs Ser.Fast Ser.FastProofs
+     Ser.Trusted Ser.TrustedProofs Ser.TrustedEnumProofs Ser.Fast Ser.FastProofs
      Ser.FastState Ser.FastStateProofs Ser.FastRegularProofs Ser.FastHistoryProofs.
 
 Section C10.
@@ -37,6 +37,25 @@ Section C10.
       trusted_cls re_match sdeser e (S n) NotNested cn (PDict kv) = Ok x.
   Proof. exact (trusted_flat re_match sdeser ostore e). Qed.
 
+  (* Characterisation (partial: the enum fragment).  For a class whose fields are primitive fields and Enum fields over
+     an enum class - looked up by member name or, with serialization_by_value, by member value -, each plain or wrapped
+     as AnyOf[T, None] / AnyOf[None, T], without defaults, and a document whose entries the regular key lookup finds
+     under the fields' own names (primitive values in the normal form of their __set__ chains, enum values truthy),
+     the trusted path - at whatever level the classifier assigned - returns exactly the instance the regular path
+     returns.  (False of the model before the repairs of _get_enum_mapping and
+     _extract_non_nonefield_from_optional in typedpy: by-value enums, AnyOf[None, Enum].) *)
+  Theorem C10_trusted_enums : forall n lv ku cn c kv doc x,
+      find_tclass e cn = Some c ->
+      doc_alist kv = Some doc ->
+      t_mapper c <> MapList ->
+      NoDup (map f_name (t_fields c)) ->
+      (forall fd, In fd (t_fields c) -> enum_field re_match c kv doc fd) ->
+      rename_doc c doc = doc ->
+      ((ku && negb (is_special (t_mapper c)) && t_additional c)%bool = true -> extras_of c kv = []) ->
+      deser_regular re_match sdeser ostore e (S n) ku [] cn (PDict kv) = Ok x ->
+      trusted_cls re_match sdeser e (S n) lv cn (PDict kv) = Ok x.
+  Proof. exact (trusted_enums re_match sdeser ostore e). Qed.
+
   (* Second clause: for a class the classifier rejects, the flag changes nothing. *)
   Theorem C10_ineligible : forall fuel ku cn d,
       level_of e fuel cn = Ok None ->
@@ -47,8 +66,8 @@ Section C10.
      per-field serializer and the regular per-field serializer agree on every value. *)
   Theorem C10_fast_value_partial : forall fc sc sc0 tf v,
       plain_tf tf = true ->
-      fast_val sser ofast e fc tf v = ser_val re_match sser oser sc sc0 tf v.
-  Proof. exact (fast_val_same re_match sser oser ofast e). Qed.
+      fast_val sser ofast fc tf v = ser_val re_match sser oser sc sc0 tf v.
+  Proof. exact (fast_val_same re_match sser oser ofast). Qed.
 End C10.
 
 (* Third clause: from_trusted_data / trust_supplied_values on constructor-valid arguments that are
@@ -68,54 +87,53 @@ Section C10_history.
   Variable e : tenv.                               (* flattened declarations of the family *)
   Variable ps : list (pystr * pystr).              (* child -> parent *)
 
-  (* Once a constructor of class cn has returned, cn keeps a serializer of its own through every later
-     operation (so an instance never falls back to an inherited closure or the stub). *)
+  (* Once a constructor of class cn has returned - the regular one or from_trusted_data, with or without keywords -,
+     cn keeps a serializer of its own through every later operation (so an instance never falls back to an inherited
+     closure or the stub). *)
   Theorem C10_fast_instantiated_keeps_serializer : forall st tr cn a rest,
-      (tr = false \/ a <> []) ->
       snd (run_op sser ofast e ps st (HInst tr (PStruct cn a))) = Ok PNone ->
-      alist_get (fs_own (fst (run_ops sser ofast e ps (fst (run_op sser ofast e ps st (HInst tr (PStruct cn a)))) rest))) cn
-      <> None.
+      alist_get (fst (run_ops sser ofast e ps (fst (run_op sser ofast e ps st (HInst tr (PStruct cn a)))) rest)) cn <> None.
   Proof. exact (instantiated_keeps_serializer sser ofast e ps). Qed.
 
-  (* Late binding: in ANY state in which the classes reachable from k have serializers of their own and the
-     Array/Set caches hold current functions, the closure of k returns what the order-free reading returns
-     (each class serialized by its own declaration, with its own flags) and keeps the caches current. *)
-  Theorem C10_fast_state_independent : forall own cf n k,
-      closed e own cf k ->
-      forall ch v, fresh e ps own ch ->
-                   exists ch', run_gen sser ofast e ps own n ch k (cf k) v = (ch', sfast sser ofast e cf n k v) /\
-                               fresh e ps own ch'.
-  Proof. exact (run_gen_sim sser ofast e ps). Qed.
+  (* Late binding: in ANY state in which the classes of the structures the closure of k reaches (in the fields of v,
+     in their fields, ...: instances of the declared classes or of subclasses) have serializers of their own, the
+     closure of k returns what the order-free reading returns: each structure serialized by the declaration of its
+     own class, with its own flags. *)
+  Theorem C10_fast_state_independent : forall own cf n k v,
+      closed e own cf n k v ->
+      run_gen sser ofast e ps own n k (cf k) v = sfast sser ofast e cf n k v.
+  Proof. exact (run_gen_sfast sser ofast e ps). Qed.
 
-  (* For EVERY sequence of create_serializer calls (any flags) and instantiations, in any order, followed by
-     any sequence of serializations of instances whose reachable classes have their own serializers: each
-     x.serialize() returns the order-free document for the flags the classes ended up with. *)
+  (* For EVERY sequence of create_serializer calls (any flags), instantiations AND serializations, in any order,
+     followed by any sequence of serializations of instances whose classes (and those of the structures they hold)
+     have their own serializers: each x.serialize() returns the order-free document for the flags the classes ended
+     up with.  (Serializations among the earlier operations used to be excluded: Array / Set fields froze the
+     serializer they saw first.) *)
   Theorem C10_fast_settled_history : forall ops sers,
-      forallb (fun op => negb (is_ser op)) ops = true ->
       let st1 := fst (run_ops sser ofast e ps st0 ops) in
-      (forall op, In op sers -> good_ser e (fs_own st1) op) ->
-      snd (run_ops sser ofast e ps st1 sers) = map (expected sser ofast e (fs_own st1)) sers.
+      (forall op, In op sers -> good_ser e st1 op) ->
+      snd (run_ops sser ofast e ps st1 sers) = map (expected sser ofast e st1) sers.
   Proof. exact (settled_history sser ofast e ps). Qed.
 
-  (* Class level: for a safe class and an instance listed in declaration order, the order-free fast document
-     (default flags) is the regular document. *)
+  (* Class level: for a safe class and an instance listed in declaration order - whose fields may hold instances of
+     other safe classes than the declared ones, subclasses for instance - the order-free fast document (default
+     flags) is the regular document. *)
   Theorem C10_fast_class :
       (forall id x w, sser id x = Ok w -> is_none w = false) ->
-      forall n cn v d,
-      safe_class e n cn = true -> ord_inst e n cn v ->
-      ser_regular re_match sser oser e n [] cn v = Ok d ->
-      sfast sser ofast e (fun _ => dconf) n cn v = Ok d.
+      forall n cn a d,
+      safe_class e n cn = true -> ord_inst e n cn (PStruct cn a) ->
+      ser_regular re_match sser oser e n [] cn (PStruct cn a) = Ok d ->
+      sfast sser ofast e (fun _ => dconf) n cn (PStruct cn a) = Ok d.
   Proof. exact (fast_equals_regular re_match sser oser ofast e). Qed.
 
-  (* End to end: any order of default-flag create_serializer calls and instantiations over a family with
-     inheritance; afterwards x.serialize() of a safe instance is exactly the regular document. *)
+  (* End to end: any order of default-flag create_serializer calls, instantiations and serializations over a family
+     with inheritance; afterwards x.serialize() of a safe instance is exactly the regular document. *)
   Theorem C10_fast_history :
       (forall id x w, sser id x = Ok w -> is_none w = false) ->
       forall ops cn a d,
-      forallb (fun op => negb (is_ser op)) ops = true ->
       forallb default_op ops = true ->
       let st1 := fst (run_ops sser ofast e ps st0 ops) in
-      closedb e (fs_own st1) cn = true ->
+      all_own e st1 = true ->
       safe_class e HFUEL cn = true ->
       ord_inst e HFUEL cn (PStruct cn a) ->
       ser_regular re_match sser oser e HFUEL [] cn (PStruct cn a) = Ok d ->
@@ -124,6 +142,7 @@ Section C10_history.
 End C10_history.
 
 Print Assumptions C10_trusted_partial.
+Print Assumptions C10_trusted_enums.
 Print Assumptions C10_ineligible.
 Print Assumptions C10_fast_value_partial.
 Print Assumptions C10_from_trusted.
@@ -145,28 +164,64 @@ Definition fd (n : string) (t : tfield) : tfd := {| f_name := s2p n; f_ty := t; 
 Definition intf : tfield := TLeaf (LPrim (FNumber KInteger SAny no_numc)).
 Definition dict1 (k : string) (v : pyval) : pyval := PDict [(PStr (s2p k), v)].
 
-(* F18: Enum(values=E, serialization_by_value=True): the regular path accepts {"e": 2}, the trusted
-   path raises KeyError *)
-Definition env_f18 : tenv := [mk "C" [fd "e" (TLeaf (LEnum (s2p "Color") color true))] MapNone].
-Theorem C10_trusted_refuted : ~ C10_trusted_statement no_re no_o no_o env_f18.
+(* the full first clause is still false of the model: Boolean accepts the document value "True" and stores True,
+   the trusted path stores the string (typedpy today: finding C10-boolean-from-string, a design limit of the shortcut) *)
+Definition env_bool : tenv := [mk "C" [fd "b" (TLeaf (LPrim FBoolean))] MapNone].
+Theorem C10_trusted_refuted : ~ C10_trusted_statement no_re no_o no_o env_bool.
 Proof.
   intro H.
-  specialize (H 3%nat false (s2p "C") (dict1 "e" (PNum (NInt 2)))
-                (PStruct (s2p "C") [(s2p "e", PEnum (s2p "Color") (s2p "GREEN") (PNum (NInt 2)))])
+  specialize (H 3%nat false (s2p "C") (dict1 "b" (PStr (s2p "True")))
+                (PStruct (s2p "C") [(s2p "b", PBool true)])
                 eq_refl eq_refl).
   vm_compute in H. discriminate.
 Qed.
 Print Assumptions C10_trusted_refuted.
 
-(* AnyOf[None, T]: the trusted path stores the raw dict where the regular path stores the structure *)
+(* Enum(values=E, serialization_by_value=True): the trusted path looks the document value up BY VALUE, as the
+   regular path does (it used to look it up by member name: KeyError; repaired in typedpy, was finding
+   C10-F18-enum-by-value).  The same for Optional[...] of it, with None listed first or last. *)
+Definition env_f18 : tenv :=
+  [mk "C" [fd "e" (TLeaf (LEnum (s2p "Color") color true));
+           fd "o" (TOpt false (TLeaf (LEnum (s2p "Color") color true)));
+           fd "n" (TOpt true (TLeaf (LEnum (s2p "Color") color false)))] MapNone].
+Definition doc_f18 : pyval :=
+  PDict [(PStr (s2p "e"), PNum (NInt 2)); (PStr (s2p "o"), PNum (NInt 1)); (PStr (s2p "n"), PStr (s2p "RED"))].
+Definition inst_f18 : pyval :=
+  PStruct (s2p "C") [(s2p "e", PEnum (s2p "Color") (s2p "GREEN") (PNum (NInt 2)));
+                     (s2p "o", PEnum (s2p "Color") (s2p "RED") (PNum (NInt 1)));
+                     (s2p "n", PEnum (s2p "Color") (s2p "RED") (PNum (NInt 1)))].
+Example C10_trusted_enum_by_value :
+  eligible env_f18 3 (s2p "C") = true /\
+  deser_regular no_re no_o no_o env_f18 3 false [] (s2p "C") doc_f18 = Ok inst_f18 /\
+  deser_trusted no_re no_o no_o env_f18 3 false (s2p "C") doc_f18 = Ok inst_f18.
+Proof. repeat split; vm_compute; reflexivity. Qed.
+
+(* AnyOf[None, T]: the trusted path deserializes the nested structure, as for AnyOf[T, None] (it used to store
+   the raw dict; repaired in typedpy, was finding C10-optional-none-first) *)
 Definition env_nf : tenv :=
   [mk "In" [fd "a" intf] MapNone; mk "C" [fd "x" (TOpt true (TRef (s2p "In")))] MapNone].
-Example C10_none_first_refuted :
+Example C10_none_first_same :
   deser_regular no_re no_o no_o env_nf 4 false [] (s2p "C") (dict1 "x" (dict1 "a" (PNum (NInt 1)))) =
     Ok (PStruct (s2p "C") [(s2p "x", PStruct (s2p "In") [(s2p "a", PNum (NInt 1))])]) /\
   deser_trusted no_re no_o no_o env_nf 4 false (s2p "C") (dict1 "x" (dict1 "a" (PNum (NInt 1)))) =
-    Ok (PStruct (s2p "C") [(s2p "x", dict1 "a" (PNum (NInt 1)))]).
+    Ok (PStruct (s2p "C") [(s2p "x", PStruct (s2p "In") [(s2p "a", PNum (NInt 1))])]).
 Proof. split; vm_compute; reflexivity. Qed.
+
+(* a class with an AnyOf field that has no None option, Optional[Enum['a','b']] and Set[Number]: the trusted
+   path no longer crashes / drops the key (repaired in typedpy, were findings C10-anyof-without-none,
+   C10-optional-literal-enum, C10-set-of-number) *)
+Definition env_rep : tenv :=
+  [mk "C" [fd "u" (TUnion [LPrim (FNumber KInteger SAny no_numc); LPrim (FString no_strc)]);
+           fd "l" (TOpt false (TLeaf (LEnumLit [PStr (s2p "a"); PStr (s2p "b")])));
+           fd "s" (TSet (TLeaf (LPrim (FNumber KNumber SAny no_numc))))] MapNone].
+Definition doc_rep : pyval :=
+  PDict [(PStr (s2p "u"), PNum (NInt 1)); (PStr (s2p "l"), PStr (s2p "a")); (PStr (s2p "s"), PList [PNum (NInt 1); PNum (NInt 2)])].
+Example C10_trusted_repaired_shapes :
+  eligible env_rep 3 (s2p "C") = true /\
+  is_ok (deser_regular no_re no_o no_o env_rep 3 false [] (s2p "C") doc_rep) = true /\
+  deser_trusted no_re no_o no_o env_rep 3 false (s2p "C") doc_rep =
+  deser_regular no_re no_o no_o env_rep 3 false [] (s2p "C") doc_rep.
+Proof. repeat split; vm_compute; reflexivity. Qed.
 
 (* an unsupported mapper makes the classifier raise instead of returning False: the flag is not a no-op *)
 Definition env_fun : tenv := [mk "C" [fd "a" intf] (MapDict [(s2p "a", MFun)])].
@@ -194,6 +249,18 @@ Example C10_fast_compact_refuted :
 Proof. split; vm_compute; reflexivity. Qed.
 
 (* ------------------------------------------------------------------ non-vacuity *)
+
+(* the hypotheses of C10_trusted_enums hold of a class with a by-value Enum, Optional[Enum] and AnyOf[None, Enum]
+   field and a four-entry document: Ser/TrustedEnumProofs.v trusted_enums_nonvacuous *)
+Example C10_trusted_enums_nonvacuous :
+  doc_alist kv_e = Some doc_e /\ rename_doc cls_e doc_e = doc_e /\ NoDup (map f_name (t_fields cls_e)) /\
+  (forall fd, In fd (t_fields cls_e) -> enum_field (fun _ _ => true) cls_e kv_e doc_e fd) /\
+  is_ok (deser_regular (fun _ _ => true) (fun _ _ => Raise Unmodelled) (fun _ _ => Raise Unmodelled) [cls_e] 3 false []
+                       (s2p "C") (PDict kv_e)) = true.
+Proof.
+  destruct trusted_enums_nonvacuous as (H1 & H2 & H3 & H4 & H5).
+  split; [exact H1|]. split; [exact H2|]. split; [exact H3|]. split; [exact H4|]. rewrite H5. reflexivity.
+Qed.
 
 (* a flat class with a rename mapper-free declaration and a two-field document: all hypotheses of
    C10_trusted_partial hold and both paths return the same instance *)
@@ -374,43 +441,66 @@ Definition hempty : pyval := PStruct (s2p "H") [(s2p "n2", PNum (NInt 5)); (s2p 
 Definition cdoc : pyval := PDict [(PStr (s2p "a"), PNum (NInt 2)); (PStr (s2p "userName"), PStr (s2p "joe"))].
 Definition hdoc : pyval := PDict [(PStr (s2p "n2"), PNum (NInt 7)); (PStr (s2p "es"), PList [cdoc])].
 
-(* Array.serialize freezes `C.serialize` at its first call.  create(P); H(es=[]).serialize() -- C has no
-   serializer of its own yet, so the frozen function is P's closure -- then H(es=[C(...)]).serialize():
-   the Child is emitted with the Parent's fields only.  (typedpy today: finding C10-fast-stale-collection-serializer) *)
-Example C10_fast_history_refuted :
+(* create(P); H(es=[]).serialize() - C has no serializer of its own yet - then H(es=[C(...)]).serialize(): the Child
+   is emitted with all its fields and its own mapper.  (Array.serialize used to freeze `C.serialize` - P's closure
+   at that moment - at its first call: the Child came out with the Parent's fields only; repaired in typedpy, was
+   finding C10-fast-stale-collection-serializer.) *)
+Example C10_fast_history_late_binding :
   nth 4 (snd (run_ops no_o no_o fam_env fam_ps st0
                       [HCreate (s2p "P") false false; HInst false hempty; HSer hempty; HInst false hinst; HSer hinst]))
       (Raise Unmodelled)
-  = Ok (PDict [(PStr (s2p "n2"), PNum (NInt 7)); (PStr (s2p "es"), PList [dict1 "a" (PNum (NInt 2))])]) /\
+  = Ok hdoc /\
   ser_regular no_re no_o no_o fam_env HFUEL [] (s2p "H") hinst = Ok hdoc.
 Proof. split; vm_compute; reflexivity. Qed.
 
-(* a field declared with class P holding an instance of the subclass C: the fast path applies P's closure,
-   the regular path serializes a C.  (typedpy today: finding C10-fast-subclass-instance-in-base-field) *)
+(* a field declared with class P holding an instance of the subclass C: the fast path serializes a C, as the
+   regular path does.  (It used to apply P's closure; repaired in typedpy, was finding
+   C10-fast-subclass-instance-in-base-field.) *)
 Definition ginst : pyval := PStruct (s2p "G") [(s2p "n2", PNum (NInt 1)); (s2p "p", cinst)].
-Example C10_fast_subclass_refuted :
-  sfast no_o no_o fam_env (fun _ => dconf) HFUEL (s2p "G") ginst
-  = Ok (PDict [(PStr (s2p "n2"), PNum (NInt 1)); (PStr (s2p "p"), dict1 "a" (PNum (NInt 2)))]) /\
-  ser_regular no_re no_o no_o fam_env HFUEL [] (s2p "G") ginst
-  = Ok (PDict [(PStr (s2p "n2"), PNum (NInt 1)); (PStr (s2p "p"), cdoc)]).
-Proof. split; vm_compute; reflexivity. Qed.
+Definition gdoc : pyval := PDict [(PStr (s2p "n2"), PNum (NInt 1)); (PStr (s2p "p"), cdoc)].
+Example C10_fast_subclass_same :
+  sfast no_o no_o fam_env (fun _ => dconf) HFUEL (s2p "G") ginst = Ok gdoc /\
+  ser_regular no_re no_o no_o fam_env HFUEL [] (s2p "G") ginst = Ok gdoc /\
+  snd (run_ops no_o no_o fam_env fam_ps st0 [HInst false ginst; HSer ginst]) = [Ok PNone; Ok gdoc].
+Proof. repeat split; vm_compute; reflexivity. Qed.
 
-(* non-vacuity of C10_fast_history, on the order that an early-binding implementation gets wrong: the holder's
-   serializer is created while C still inherits P's closure, C is instantiated afterwards *)
-Definition ops_ok : list hop := [HCreate (s2p "P") false false; HCreate (s2p "H") false false; HInst false hinst].
+(* from_trusted_data without keywords: the class gets its serializer like with any other instantiation (it used to
+   be skipped: x.serialize() was the base class's closure or the stub; repaired in typedpy, was finding
+   C10-fast-trusted-empty-instance) *)
+Example C10_fast_trusted_empty :
+  snd (run_ops no_o no_o fam_env fam_ps st0
+               [HCreate (s2p "P") false false; HInst true (PStruct (s2p "C") []);
+                HSer (PStruct (s2p "C") [(s2p "user_name", PStr (s2p "joe"))])])
+  = [Ok PNone; Ok PNone; Ok (PDict [(PStr (s2p "userName"), PStr (s2p "joe"))])].
+Proof. vm_compute. reflexivity. Qed.
+
+(* non-vacuity of C10_fast_history, with a subclass instance in a field declared with the base class, on an order
+   that an early-binding implementation gets wrong: the holders' serializers are created while C still inherits P's
+   closure, a holder is serialized with an empty list, C is instantiated afterwards *)
+Definition ops_ok : list hop :=
+  [HCreate (s2p "P") false false; HCreate (s2p "H") false false; HCreate (s2p "G") false false;
+   HInst false hempty; HSer hempty; HInst false hinst; HInst false ginst].
 Example C10_fast_history_nonvacuous :
-  forallb (fun op => negb (is_ser op)) ops_ok = true /\
   forallb default_op ops_ok = true /\
-  closedb fam_env (fs_own (fst (run_ops no_o no_o fam_env fam_ps st0 ops_ok))) (s2p "H") = true /\
+  all_own fam_env (fst (run_ops no_o no_o fam_env fam_ps st0 ops_ok)) = true /\
   safe_class fam_env HFUEL (s2p "H") = true /\
   ord_inst fam_env HFUEL (s2p "H") hinst /\
   ser_regular no_re no_o no_o fam_env HFUEL [] (s2p "H") hinst = Ok hdoc /\
-  snd (run_ops no_o no_o fam_env fam_ps (fst (run_ops no_o no_o fam_env fam_ps st0 ops_ok)) [HSer hinst]) = [Ok hdoc].
+  snd (run_ops no_o no_o fam_env fam_ps (fst (run_ops no_o no_o fam_env fam_ps st0 ops_ok)) [HSer hinst]) = [Ok hdoc] /\
+  safe_class fam_env HFUEL (s2p "G") = true /\
+  ord_inst fam_env HFUEL (s2p "G") ginst /\
+  snd (run_ops no_o no_o fam_env fam_ps (fst (run_ops no_o no_o fam_env fam_ps st0 ops_ok)) [HSer ginst]) = [Ok gdoc].
 Proof.
   repeat split; try (vm_compute; reflexivity).
-  apply al_take; [reflexivity|exact I|]. apply al_take; [reflexivity| |apply al_nil].
-  constructor; [|constructor]. split; [reflexivity|].
-  apply al_take; [reflexivity|exact I|]. apply al_take; [reflexivity|exact I|apply al_nil].
+  - left. reflexivity.
+  - apply al_take; [reflexivity|exact I|]. apply al_take; [reflexivity| |apply al_nil].
+    constructor; [|constructor]. split; [left; reflexivity|].
+    apply al_take; [reflexivity|exact I|]. apply al_take; [reflexivity|exact I|apply al_nil].
+  - left. reflexivity.
+  - apply al_take; [reflexivity|exact I|]. apply al_take; [reflexivity| |apply al_nil].
+    (* the field p is declared with class P and holds a C: another safe class of the family *)
+    split; [right; vm_compute; reflexivity|].
+    apply al_take; [reflexivity|exact I|]. apply al_take; [reflexivity|exact I|apply al_nil].
 Qed.
 
 (* _get_enum_mapping puts the plain Enum[E] fields before the Optional ones: with a = Optional[Enum[Color]],
@@ -427,8 +517,8 @@ Proof. vm_compute. reflexivity. Qed.
 
 (* ---- the tie to the source of the classifier, re-checked by the kernel on every run --------------------
    Gen/TrustedSrc.v is re-generated from typedpy/serialization/serialization.py (harness/genmods/py2v_trusted.py):
-   _is_mapper_simple, _is_optional_anyof, _extract_non_nonefield_from_optional, _structure_simplicity_level,
-   _get_enum_mapping, the tuple _valid_classes_for_trusted_deserialization and the subclass table of the field
+   _is_mapper_simple, _is_optional_anyof, _extract_non_nonefield_from_optional, _leading_option,
+   _structure_simplicity_level, _enum_lookup, _get_enum_mapping, the tuple _valid_classes_for_trusted_deserialization and the subclass table of the field
    classes (read from the class statements).  For EVERY class environment the classifier of the source NOW is
    the hand-written classifier of Ser/Trusted.v on which the theorems above are proved. *)
 From TP Require Import Base.PyOps Base.PyOps2 Base.PyObj Base.PyOpsFields Gen.TrustedSrc Ser.TrustedSrcProofs.
@@ -453,13 +543,25 @@ Theorem C10_src_optional_anyof_union :
          src_is_optional_anyof h (tf_py other_obj (TUnion ls)) = Ok (PBool (union_optional ls)).
 Proof. exact src_optional_anyof_union. Qed.
 
-(* fields[0] in both branches: the source text itself *)
+(* the option that is not None, wherever None is listed (the source used to return fields[0] in both branches) *)
 Theorem C10_src_extract_opt :
   forall (other_obj : N -> bool -> pyval) (h : heap) (nf : bool) (f : tfield),
          tf_wf other_obj f = true ->
-         src_extract_non_nonefield_from_optional h (tf_py other_obj (TOpt nf f)) =
-         Ok (tf_py other_obj (if nf then none_leaf else f)).
+         src_extract_non_nonefield_from_optional h (tf_py other_obj (TOpt nf f)) = Ok (tf_py other_obj f).
 Proof. exact src_extract_opt. Qed.
+
+(* _leading_option: the option _get_enum_mapping looks at *)
+Theorem C10_src_leading_option_opt :
+  forall (other_obj : N -> bool -> pyval) (h : heap) (nf : bool) (f : tfield),
+         tf_wf other_obj f = true ->
+         src_leading_option h (tf_py other_obj (TOpt nf f)) = Ok (tf_py other_obj f).
+Proof. exact src_leading_option_opt. Qed.
+
+Theorem C10_src_leading_option_union :
+  forall (other_obj : N -> bool -> pyval) (h : heap) (l : leaf) (ls : list leaf),
+         union_optional (l :: ls) = false ->
+         src_leading_option h (tf_py other_obj (TUnion (l :: ls))) = Ok (leaf_py l).
+Proof. exact src_leading_option_union. Qed.
 
 (* _structure_simplicity_level = level_of *)
 Theorem C10_src_level :
@@ -486,36 +588,29 @@ Theorem C10_src_eligible :
          end.
 Proof. exact src_eligible_eq. Qed.
 
-(* _get_enum_mapping (plain Enum fields first, then Optional[Enum]) *)
+(* _get_enum_mapping (plain Enum fields first, then Optional[Enum]); each entry maps the field to the object its
+   document value is looked up in: the enum class (by name) or _enum_by_value (serialization_by_value) *)
 Theorem C10_src_enum_mapping :
   forall (other_obj : N -> bool -> pyval) (chain : list pyval) (e : tenv) 
            (cn : pystr) (c : tclass),
          find_tclass e cn = Some c ->
          fields_wf other_obj (t_fields c) = true ->
+         fields_union_ok (t_fields c) = true ->
          nodupb (map f_name (t_fields c)) = true ->
          src_get_enum_mapping (class_heap other_obj chain e) (ref cn) =
-         targets_res (enum_targets (enum_order (t_fields c))).
+         Ok (targets_val (enum_targets (enum_order (t_fields c)))).
 Proof. exact src_enum_mapping_eq. Qed.
 
 Theorem C10_src_enum_order_same :
-  forall fs : list tfd,
-         match enum_targets fs with
-         | Ok a =>
-             match enum_targets (enum_order fs) with
-             | Ok b => Permutation.Permutation a b
-             | Raise _ => False
-             end
-         | Raise x => match enum_targets (enum_order fs) with
-                      | Ok _ => False
-                      | Raise y => x = y
-                      end
-         end.
+  forall fs : list tfd, Permutation.Permutation (enum_targets fs) (enum_targets (enum_order fs)).
 Proof. exact enum_order_same. Qed.
 
 Print Assumptions C10_src_mapper_simple.
 Print Assumptions C10_src_optional_anyof_opt.
 Print Assumptions C10_src_optional_anyof_union.
 Print Assumptions C10_src_extract_opt.
+Print Assumptions C10_src_leading_option_opt.
+Print Assumptions C10_src_leading_option_union.
 Print Assumptions C10_src_level.
 Print Assumptions C10_src_eligible.
 Print Assumptions C10_src_enum_mapping.
